@@ -10,16 +10,94 @@ RULE = ('an ActiveObject subclass with a small tracked-source capacity (QUEUE_SI
         'tier) is filled with timed sources (long and short periods), then a further timed post is made (fifo/lifo, deferred or not, short '
         'period, from outside or from a handler): it must raise ActiveObjectOutOfPostedEventResources, its event must never be appended to the '
         'queue under any interleaving of the rejected source\'s thread with the caller (random / PCT schedules, run past several periods), and '
-        'the sources tracked before must keep their ideal posting schedule. distinct_nontrivial = distinct (capacity, rejected-source '
+        'the sources tracked before must keep their ideal posting schedule. Every fourth case leaves exactly ONE free slot and lets 2-3 threads arm a timed post at once: exactly one is accepted, the others are refused and never fire, and every source tracked before is still tracked. distinct_nontrivial = distinct (capacity, rejected-source '
         'parameters, inside/outside, context-switch sequence prefix) tuples')
 CASES = {'quick': 1000, 'thorough': 50000}
 BUDGET = {'quick': 150, 'thorough': 300}
-REQUIRE = {'runs': 400, 'rejected_nondeferred': 100, 'rejected_deferred': 100, 'rejected_from_handler': 80}
+REQUIRE = {'runs': 400, 'rejected_nondeferred': 100, 'rejected_deferred': 100, 'rejected_from_handler': 50, 'concurrent_runs': 150}
 ASSUME = ['instantaneous-computation time model']
 ANNOUNCE_CASES = True
 
 
+def concurrent_case(ctx, n):
+  """ONE free tracking slot and 2-3 threads arming a timed post at once: exactly one may be accepted, the others must be refused
+  and never fire, and every source tracked before must still be tracked (and keep its schedule)"""
+  rng = ctx.rng('conc', n)
+  cap = rng.randint(2, 4)
+  tracked = [{'i': i, 'sig': rng.choice(['TICK_A', 'TICK_B']), 'kind': rng.choice(['fifo', 'lifo']), 'period': rng.choice([0.05, 100.0]),
+              'times': 0, 'deferred': rng.choice([True, False, None]), 'start_delay': 0.0} for i in range(cap - 1)]
+  racers = [{'i': cap - 1 + k, 'sig': 'TICK_R%d' % k, 'kind': rng.choice(['fifo', 'lifo']), 'period': rng.choice([0.01, 0.05]), 'times': rng.choice([0, 3]),
+             'deferred': rng.choice([True, False, False, None]), 'start_delay': 0.0} for k in range(rng.randint(2, 3))]
+  pol = aosim.policy_for(rng, est_len=800, fair_suffix=False)
+  s = ds.Sched(seed=rng.randrange(1 << 30), max_steps=5000000, horizon=1e9, **pol)
+  aosim.install(s)
+  run = timersim.TimerRun()
+  try:
+    class Small(AO.ActiveObject):
+      QUEUE_SIZE = cap
+    ao = aosim.make_ao(run.hist, base=Small)
+    st = timersim.make_state(run, [], spied=rng.random() < 0.5)
+    import contextlib, io
+    try:
+      ao.start_at(st)
+      for src in tracked:
+        timersim.start_source(ao, run, src)
+      ds.STime.sleep(rng.choice([0.0, 0.003]))
+      sink = io.StringIO()
+      with contextlib.redirect_stdout(sink):
+        ths = [ds.SThread(target=timersim.start_source, args=(ao, run, r)) for r in racers]
+        for t in ths:
+          t.start()
+        for t in ths:
+          t.join()
+        tracked_ids_after = [pe.uuid for pe in list(ao.posted_events_queue)]
+        ds.STime.sleep(rng.choice([0.0777, 0.3123]))
+    except ds.Verdict as v:
+      ctx.violation('C31/' + v.kind, 'scenario ended in %s: %r' % (v.kind, v.info), {'capacity': cap, 'concurrent': True})
+      return
+    now = s.clock
+    ctx.count('concurrent_runs')
+    ctx.distinct(('conc', cap, len(racers), s.signature()[:40]))
+    wit = {'capacity': cap, 'tracked_before': len(tracked), 'concurrent_posts': [dict((k, v) for k, v in x.items() if k != 'event') for x in racers], 'policy': pol,
+           'accepted': sorted(i for i in run.ids if i >= cap - 1), 'refused': sorted(run.raised)}
+    accepted = [r for r in racers if r['i'] in run.ids]
+    refused = [r for r in racers if r['i'] in run.raised]
+    if len(accepted) != 1 or len(refused) != len(racers) - 1:
+      ctx.violation('C31/over-capacity-post-accepted/concurrent', 'with %d of %d tracking slots taken, %d threads armed a timed post at once: %d were accepted, %d refused (exactly one fits)' % (
+        cap - 1, cap, len(racers), len(accepted), len(refused)), wit)
+      return
+    bad = [r['i'] for r in refused if not isinstance(run.raised[r['i']], AO.ActiveObjectOutOfPostedEventResources)]
+    if bad:
+      ctx.violation('C31/wrong-exception', 'refused concurrent posts raised %r' % [repr(run.raised[i]) for i in bad], wit)
+      return
+    missing = [src['i'] for src in tracked if run.ids[src['i']] not in tracked_ids_after]
+    if missing:
+      ctx.violation('C31/tracked-source-evicted', 'sources %r, tracked before the concurrent posts, are no longer tracked afterwards (tracked ids %r)' % (missing, tracked_ids_after), wit)
+      return
+    posts = timersim.postings(ao)
+    for r in refused:
+      mine = [p for p in posts if p[0] == r['i']]
+      if mine:
+        ctx.violation('C31/rejected-source-posted/%s' % ('nondeferred' if r['deferred'] is False else 'deferred'), 'a refused concurrent source posted its event %d time(s)' % len(mine), wit)
+        return
+    for src in tracked + accepted:
+      ideal = timersim.expected_instants(src, run.t0[src['i']], now)
+      got = [p for p in posts if p[0] == src['i']]
+      if len(got) != len(ideal):
+        ctx.violation('C31/tracked-source-disturbed', 'source %d has %d postings at t=%r, expected %d' % (src['i'], len(got), now, len(ideal)), wit)
+        return
+    exc = [(t.name, t.role, repr(t.exc)) for t in s.threads if t.exc is not None]
+    if exc:
+      ctx.violation('C31/exception-in-thread', 'a thread died: %r' % exc, wit)
+  finally:
+    z = ds.uninstall()
+    if z:
+      ctx.count('zombie_threads', z)
+
+
 def run_case(ctx, n):
+  if n % 4 == 3:
+    return concurrent_case(ctx, n)
   rng = ctx.rng('case', n)
   cap = 500 if (ctx.tier == 'thorough' and n % 400 == 0) else rng.randint(2, 4)
   tracked = []
